@@ -595,4 +595,28 @@ def rule_ownresult(ctx):
                         lambda i: "Reusable" in i.construct, 2)
 
 
-RULES = [rule_fpdet, rule_fpcov, rule_fppos, rule_policy, rule_schema, rule_memkey, rule_ownresult, rule_hitrebuild]
+def rule_ownthread(ctx):
+    """Shared with C16-THREADKEY / C16-OWNRUN (reusable.py only; seed C14_7): on a miss
+    ``search()`` hands back ``self.last_opt.tree``; it is a tree of the *queried* contraction
+    only if the slot it is read from belongs to the querying thread and was filled by the run
+    for this query."""
+    from .c16 import rule_threadkey, rule_ownrun
+    from ..engine.report import RuleResult
+
+    r = RuleResult("C14-OWNTHREAD", "the tree returned after a miss is the one this query's search built", 3)
+    for src, old in ((rule_threadkey, "C16-THREADKEY"), (rule_ownrun, "C16-OWNRUN")):
+        for i in src(ctx).instances:
+            if "reusable.py" not in i.construct:
+                continue
+            c = i.construct.replace(old, "C14-OWNTHREAD::" + old.split("-")[1].lower())
+            if i.verdict == "violation":
+                r.violation(c, i.loc, i.reason, **i.detail)
+            elif i.verdict == "exempt":
+                r.exempt(c, i.loc, i.reason)
+            else:
+                r.ok(c, i.loc, i.reason)
+    return r
+
+
+RULES = [rule_fpdet, rule_fpcov, rule_fppos, rule_policy, rule_schema, rule_memkey, rule_ownresult,
+         rule_ownthread, rule_hitrebuild]
